@@ -35,6 +35,13 @@ func (fc *FnCtx) calleeKeys(c *ssa.CallCommon, fnv Val) (keys []string, callee *
 	}
 	if callee != nil {
 		n := fc.eng.fnName(callee)
+		// a contract specialised to the dynamic type of the first (interface) argument:
+		// heap.Push[*watermark.lowHeap]
+		if len(c.Args) > 0 {
+			if mi, ok := c.Args[0].(*ssa.MakeInterface); ok {
+				keys = append(keys, n+"["+fc.eng.typeName(mi.X.Type())+"]")
+			}
+		}
 		keys = append(keys, n)
 		if o := callee.Origin(); o != nil {
 			keys = append(keys, fc.eng.fnName(o))
@@ -475,6 +482,14 @@ func (fc *FnCtx) execBuiltin(st *State, b *ssa.Builtin, args []Val, rty types.Ty
 		return fc.mkVal(fc.sc.Define(b.Name(), "Int", t), rty), true
 	case "close":
 		fc.lockHookChan(st, "close", args[0], pos)
+		// close(nil) and a second close of the same channel panic; the ghost set ChClosed (declared
+		// in lib/std.spec) records which channels this goroutine's history has closed
+		if fc.eng.ghosts["ChClosed"] != nil && !fc.eng.lockMode {
+			k := fc.ghostKey("ChClosed")
+			fc.oblige(st, "close.nil", not(eq(args[0].T, "0")), pos, "close of a nil channel panics")
+			fc.oblige(st, "close.closed", not(app("select", fc.heapGet(st, k), args[0].T)), pos, "close of a closed channel panics")
+			st.heap[k] = fc.sc.DefineConst(fc.hv[k].name, fc.hv[k].sort, app("store", fc.heapGet(st, k), args[0].T, "true"))
+		}
 		return Val{Ty: rty, Sort: "Tuple"}, true
 	case "panic":
 		fc.oblige(st, "panic", "false", pos, "explicit panic is unreachable")
@@ -505,6 +520,13 @@ func (fc *FnCtx) execAppend(st *State, s, e Val, rty types.Type, pos token.Pos) 
 	k := fc.elemKey(et)
 	h := fc.heapGet(st, k)
 	at := fc.atFn(et)
+	// the operands occur inside patterns below: they must be constants, not macros with ite/and
+	if strings.Contains(s.T, "!") || strings.Contains(s.T, "(") {
+		s.T = fc.sc.DefineConst("aps", "Slice", s.T)
+	}
+	if e.Sort != sortStr && (strings.Contains(e.T, "!") || strings.Contains(e.T, "(")) {
+		e.T = fc.sc.DefineConst("ape", "Slice", e.T)
+	}
 	var eLen, eArr, eOff string
 	if e.Sort == sortStr { // append([]byte, string...)
 		eLen = app("slen", e.T)
